@@ -71,11 +71,12 @@ public:
         if (prop == "C18") return tier == "quick" ? 15000 : 200000;
         return tier == "quick" ? 150000 : 2000000;
     }
-    Json generate(uint64_t seed, uint64_t index, const std::string& tier) override { if (prop == "C15" && runRng(seed, index, "mode").chance(1, 6)) return PoolTransparency::generate(runRng(seed, index, "pool"), tier);      // a sixth of the C15 runs: the cached-grammar clauses
+    Json generate(uint64_t seed, uint64_t index, const std::string& tier) override { if (prop == "C15") { uint64_t m = runRng(seed, index, "mode").below(6); if (m == 0) return PoolTransparency::generate(runRng(seed, index, "pool"), tier);      // a sixth of the C15 runs: the cached-grammar clauses
+            if (m == 1) return SchemaHistory::generate(runRng(seed, index, "schemahist"), tier); }      // another sixth: histories of schema-validated parses
         return prop == "C18" ? genC18(seed, index, tier) : genC15(seed, index, tier); }
     Outcome execute(const Json& plan) override {
         Outcome o; o.fingerprint = fnv1a(plan.dump());
-        if (plan.gets("mode") == "C15pool") PoolTransparency::execute(plan, o); else if (prop == "C18") execC18(plan, o); else execC15(plan, o);
+        if (plan.gets("mode") == "C15pool") PoolTransparency::execute(plan, o); else if (plan.gets("mode") == "C15schema") SchemaHistory::execute(plan, o); else if (prop == "C18") execC18(plan, o); else execC15(plan, o);
         return o;
     }
     Json sampleView(const Json& plan) override {
@@ -88,6 +89,7 @@ public:
     std::vector<Json> shrinkCandidates(const Json& plan) override {
         std::vector<Json> c;
         if (plan.gets("mode") == "C15pool") return PoolTransparency::shrinkCandidates(plan);
+        if (plan.gets("mode") == "C15schema") return SchemaHistory::shrinkCandidates(plan);
         if (prop == "C18") {
             if (plan.has("pick") && plan.at("pick").a.size() > 1) { size_t n = plan.at("pick").a.size(); { Json p = plan; p.ref("pick").a.resize(n / 2); c.push_back(p); } { Json p = plan; Json& a = p.ref("pick"); a.a.erase(a.a.begin(), a.a.begin() + (long)(n / 2)); c.push_back(p); } for (size_t i = 0; i < n && i < 40; i++) { Json p = plan; jsonRemoveAt(p.ref("pick"), i); c.push_back(p); } }
             if (plan.geti("nest", 1) > 1) { Json p = plan; p.set("nest", 1); c.push_back(p); }
